@@ -6,6 +6,11 @@ PROPERTY = "C16"
 LEAN_TARGETS = ["VectorModel.Props.C16"]
 THEOREM_FILES = ["VectorModel/Props/C16.lean"]
 NEEDS_TRANSLATOR = False
+LEVEL = "other"
+EXPLANATION = ("A pure functional model cannot express aliasing, so the Lean theorems (operations are functions of their operands; only `step` has a "
+               "state output; frame lemmas) are nearly trivial. The substance of this check is observational: every operand is snapshotted bit-for-bit "
+               "(object: class, system, coordinates; NumPy: class, dtype, shape, raw bytes, writeable flag; Awkward: form, buffers, fields) before and "
+               "after each call of the catalogue on every backend pairing, including calls that raise, reductions and operators.")
 
 
 def correspondence(ctx):
